@@ -378,7 +378,10 @@ impl Check for C17 {
             // ---- document
             let mut src: Vec<u8> = match root {
                 Root::Tmpl | Root::TmplCombined => {
-                    if t.pct(80) {
+                    if t.pct(25) {
+                        ctx.label("src:split_directives");
+                        split_directive_doc(t)
+                    } else if t.pct(75) {
                         crate::gen::custom::tmpl_doc(t)
                     } else {
                         let class = doc::gen_class(t, &[0, 50, 30, 15, 5, 0]);
@@ -514,6 +517,32 @@ impl Check for C17 {
                     }
                 }
                 e.2.extend(l.ranges.iter().copied());
+            }
+            // (starts) every HighlightStart of an injected family happens at the start of a node captured with that
+            // name in one of the family's layers, inside the family's content ranges. Unlike the consumer-view extents
+            // this does not depend on which End closes which Start.
+            {
+                let mut off = 0usize;
+                for e in &ev {
+                    match e {
+                        HighlightEvent::Source { end, .. } => off = *end,
+                        HighlightEvent::HighlightStart(h) => {
+                            let fam = family_of(&names[h.0]);
+                            if let Some((exact, idents, ranges)) = by_family.get(fam) {
+                                if fam != root_family && !ranges.iter().any(|(a, b)| *a <= off && off <= *b) {
+                                    ctx.fail("C17:containment:start_outside_injection_content", format!("a {} highlight starts at byte {off}, outside the {fam} content ranges {:?}\nroot {root:?}, source {}\nevents: {}", names[h.0], ranges, shown(), show_events(&ev, &names, 80)));
+                                    return;
+                                }
+                                let known_start = exact.iter().any(|x| x.0 == off && x.2 == h.0) || (fam == "mini" && idents.iter().any(|x| x.0 == off));
+                                if !known_start {
+                                    ctx.fail("C17:extent:start_is_no_captured_node", format!("a {} highlight starts at byte {off} where no node captured with that name starts in a {fam} layer\nroot {root:?}, source {}\nevents: {}", names[h.0], shown(), show_events(&ev, &names, 80)));
+                                    return;
+                                }
+                            }
+                        }
+                        HighlightEvent::HighlightEnd => {}
+                    }
+                }
             }
             // a token of a combined injection that runs from one content range into the next (known finding)
             let gap_node = layers.iter().any(|l| l.ranges.len() > 1 && l.captured.iter().any(|c| l.ranges.windows(2).any(|w| c.0 < w[0].1 && c.1 > w[1].0)));
@@ -886,4 +915,58 @@ pub fn debug_hl(root: &str, src: &[u8]) {
     let mut r = HtmlRenderer::new();
     r.render(ev.iter().cloned().map(Ok), src, &|h: Highlight, out: &mut Vec<u8>| out.extend(format!("h={}", h.0).bytes())).unwrap();
     println!("{}", show_bytes(&r.html, 4000));
+}
+
+/// builds the process-lifetime caches (used by C07 before it installs its counting allocator)
+pub fn warm() {
+    let _ = queries();
+}
+
+/// template documents whose mini code is cut into several directives at arbitrary points (inside strings, comments,
+/// identifiers), so that in a combined injection tokens - and the content nodes of nested injections - run from one
+/// content range into the next
+fn split_directive_doc(t: &mut Tape) -> Vec<u8> {
+    let mini = lang::zoo("mini");
+    let mut out = String::new();
+    for _ in 0..1 + t.below(4) {
+        if t.pct(50) {
+            out.push_str(*t.pick(&["hello ", "<p>", "text\n", "é ", ""]));
+        }
+        let code: String = if t.pct(60) {
+            let k = 1 + t.below(4);
+            let mut c = String::new();
+            for _ in 0..k {
+                c.push_str(*t.pick(&["f(\"1 + 22 * a;\");", "let s = \"x - (1 + y);\" ;", "g(\"a\", \"b + 1;\");", "let a = 1;", "{ let b = a; }", "/* note */ a;", "\"3 * 4;\";"]));
+                c.push(' ');
+            }
+            c
+        } else {
+            let nb = 1 + t.below(10) as u32;
+            let toks = doc::sentence_tokens(mini, t, nb);
+            String::from_utf8_lossy(&doc::render(mini, &toks, t)).replace("%>", "% >")
+        };
+        let chars: Vec<char> = code.chars().collect();
+        let cuts = t.below(4);
+        let mut pts: Vec<usize> = (0..cuts).map(|_| t.below(chars.len() + 1)).collect();
+        pts.sort();
+        pts.dedup();
+        let mut prev = 0;
+        for p in pts.into_iter().chain(std::iter::once(chars.len())) {
+            let piece: String = chars[prev..p].iter().collect();
+            prev = p;
+            if piece.is_empty() {
+                continue;
+            }
+            out.push_str("<%");
+            out.push_str(&piece);
+            if piece.ends_with('%') {
+                out.push(' ');
+            }
+            out.push_str("%>");
+            if t.pct(60) {
+                out.push_str(*t.pick(&[" gap ", "\n", "<b>", "1 + 2"]));
+            }
+        }
+    }
+    out.into_bytes()
 }
